@@ -34,7 +34,7 @@ Mutation self-test (2026-09-22): in `endpoint_info_from_attrs` the relay attribu
 with a stricter rule (`.filter(|u: &Url| u.query().is_none())`, DESIGN §12 C31) -> VIOLATION
 (sig field=addrs wrong=missing for the query-string relay URLs), undone -> exit 0.
 Seeded changes (2026-09-22): seeded/_incoming/C31/patch.diff (split('=') through a helper) and
-patch2.diff (TXT::try_from: 254-byte character-strings) -> VIOLATION (see seeded/lookup/README).
+patch2.diff (TXT::try_from: 254-byte character-strings) -> VIOLATION (see seeded/selftest/lookup/README).
 """
 import json
 import random
